@@ -180,7 +180,9 @@ func ItemCollectionDeduplication(recCols ...*ItemCollection) ItemCollection {
 
 		sort.Sort(sort.Reverse(sort.IntSlice(toRemove)))
 		for _, idx := range toRemove {
-			*recCol = append((*recCol)[:idx], (*recCol)[idx+1:]...)
+			// NOTE: the capacity is limited to idx so the append allocates instead of shifting the elements
+			// inside the backing array, which callers may still hold through a copy of the slice header
+			*recCol = append((*recCol)[:idx:idx], (*recCol)[idx+1:]...)
 		}
 	}
 	return rec
